@@ -59,13 +59,13 @@ func (mc *Machine) snapshotRestore(t *rapid.T, src *column.Collection, capacity 
 
 func TestC03(t *testing.T) {
 	rapid.Check(t, func(t *rapid.T) {
-		sch := genSchema(t, SchemaCfg{Key: 1, Merges: true, MinCols: 1, MaxCols: 4, NoLenMerge: KFActive("f15-difflen-merge-reorder")})
+		sch := genSchema(t, SchemaCfg{Key: 1, Merges: true, MinCols: 1, MaxCols: 4})
 		log := &recLogger{}
 		mc := NewMachine("C03", sch, column.Options{Writer: log})
 		defer mc.Close()
 		defer mc.Guard(t)
 		cfg := TxnCfg{Prop: "C03", MaxSteps: 10, Rollback: true, Deletes: true, Inserts: true, Merges: true, OwnUpdates: true, KeyOps: true, Direct: true,
-			NoStoreOnDel: KFActive("f11-store-and-delete-same-txn")}
+			NoStoreOnDel: KFActive("f11-store-and-delete-same-txn"), NoOpAfterLenMerge: KFActive("f15-difflen-merge-reorder")}
 		t.Repeat(map[string]func(*rapid.T){
 			"txn": func(t *rapid.T) {
 				eff, committed := mc.ActTxn(t, cfg)
